@@ -86,6 +86,11 @@ def run(tier, seed):
     # a lazily filled cache member must not survive a change of its sources (an earlier getter/dump call would change later events)
     from ..rules import cachemem
     cachemem.check(rep, prog)
+    # per-event working members of the event operations are assigned before they are read in every call
+    from ..rules import scratch
+    for opq in sorted({f['qn'] for f in prog.functions.values() if f.get('name') == '_rotate_event_' and f.get('body')}):
+        scratch.check(rep, prog, opq)
+    rep.floor('SCRATCH.def-before-use', sum(1 for i in rep.instances if i.rule == 'SCRATCH.def-before-use'), 1)
     # 4. use-after-invalidate (a capacity-dependent result)
     nb, adders = inv.check_all(rep, prog, cg, sigs, prog.functions.keys())
     rep.floor('INV.use-after-invalidate', nb, 6)
